@@ -80,6 +80,14 @@ def main():
     for p in props:
         if p in CLAIMED:
             tech, text, ref = CLAIMED[p]
+            # the rule ids actually applied by the last run of the check (evidence is rewritten on every run)
+            try:
+                ev = json.load(open(os.path.join(V, "evidence", p + ".json")))
+                ids = [r["rule"] for r in ev["coverage"]["rules_applied"]]
+                import re as _re
+                tech = _re.sub(r"\s*\([A-Z0-9,\- ;/a-z']*\)$", "", tech) + " - rules applied: " + " ".join(ids)
+            except Exception:
+                pass
             checks.append({
                 "property_id": p,
                 "quick_cmd": f"./run.sh {p} quick",
